@@ -119,7 +119,12 @@ def make_session(rng, res, tier):
 
         # ---- classification of toggle mismatches
         def toggle_violation(self, key, m, observed, retry):
-            if getattr(m, "spurious_clear", False) and observed == 0 and m.toggle == 1:
+            if getattr(m, "discard_situation", None) == "awaiting_ack" and observed == m.toggle ^ 1:
+                self.res.violation("in_toggle_advanced_by_discard_while_awaiting_ack",
+                                   "IN ep=%d: packet sent, host withheld the ACK, `discard` asserted before any further token: the next "
+                                   "packet carries the advanced toggle DATA%d although no transaction completed; ops=%s"
+                                   % (key[0], observed, self.ops_log[-12:]))
+            elif getattr(m, "spurious_clear", False) and observed == 0 and m.toggle == 1:
                 self.res.violation("clear_halt_applied_by_unrelated_ack",
                                    "IN ep=%d reset to DATA0 although no clear-halt naming it completed: a CLEAR_FEATURE request was "
                                    "unfinished (abandoned / stalled / between its stages) when the host ACKed another transaction; ops=%s"
